@@ -443,34 +443,67 @@ theorem rankOf_two64 : rankOf two64 = 0 := by simp [rankOf]
 theorem ofBlk_indefinite (c : Str) : ofBlk { check := c, transmit := indefinite } = { check := num c, upto := 0 } := by
   simp [ofBlk, num_indefinite, rankOf_two64]
 
-/-! ### simulation: coordinator state ↔ ghost, inside one window ending at `lim` -/
+/-! ### simulation: coordinator state ↔ ghost
 
-structure Sim (lim : Nat) (s : State) (g : Ghost) : Prop where
-  freshI : Fresh s.idBlocks lim
-  freshA : Fresh s.activeKeys lim
+`limI` / `limA`: no id-block / active-key entry expires before; `PA` / `PL`: keys accepted / logged in an earlier window
+(their contributions have expired with that window, so they are exempt from the witness invariant). -/
+
+structure Sim2 (limI limA : Nat) (PA PL : List Str) (s : State) (g : Ghost) : Prop where
+  freshI : Fresh s.idBlocks limI
+  freshA : Fresh s.activeKeys limA
   canon  : ∀ k b e, s.idBlocks.find k = some (b, e) → canonBlk b
   blocks : ∀ id, (s.idBlocks.find id).map (fun p => ofBlk p.1) = g.block id
   active : ∀ k, (s.activeKeys.find k).map (·.1) = if k ∈ g.accepted then some (decide (k ∈ g.logged)) else none
-  acc    : ∀ k ∈ g.accepted, ∃ c id, splitUpkeepKey k = some (c, id) ∧ (id, ({ check := num c, upto := 0 } : NB)) ∈ g.contribs
+  wit    : ∀ k, (k ∈ g.accepted ∧ k ∉ PA) ∨ (k ∈ g.logged ∧ k ∉ PL) →
+             ∃ c id x, splitUpkeepKey k = some (c, id) ∧ (id, x) ∈ g.contribs ∧ x.check = num c
   logAcc : ∀ k ∈ g.logged, k ∈ g.accepted
 
-theorem sim_init (lim : Nat) : Sim lim State.init Ghost.init := by
+/-- one window, nothing before it -/
+abbrev Sim (lim : Nat) (s : State) (g : Ghost) : Prop := Sim2 lim lim [] [] s g
+
+theorem sim_init2 (limI limA : Nat) (PA PL : List Str) : Sim2 limI limA PA PL State.init Ghost.init := by
   refine ⟨fresh_empty _, fresh_empty _, ?_, ?_, ?_, ?_, ?_⟩ <;>
     simp [State.init, Ghost.init, Cache.empty, Cache.find, Ghost.block, Ghost.forId, joinAll]
 
+theorem sim_init (lim : Nat) : Sim lim State.init Ghost.init := sim_init2 lim lim [] []
+
 theorem activeTtl_pos : 0 < activeTtlNs := by unfold activeTtlNs; omega
 
-/-- an accepted key's id is blocked at least at `(check, indefinite)` -/
-theorem Sim.block_ge {lim : Nat} {s : State} {g : Ghost} (h : Sim lim s g) {k c id : Str}
-    (hk : k ∈ g.accepted) (hs : splitUpkeepKey k = some (c, id)) :
+/-- a key accepted or logged in this window blocks its id at least at `(check, indefinite)` -/
+theorem Sim2.block_ge {limI limA : Nat} {PA PL : List Str} {s : State} {g : Ghost} (h : Sim2 limI limA PA PL s g)
+    {k c id : Str} (hk : (k ∈ g.accepted ∧ k ∉ PA) ∨ (k ∈ g.logged ∧ k ∉ PL)) (hs : splitUpkeepKey k = some (c, id)) :
     ∃ m, g.block id = some m ∧ NB.le { check := num c, upto := 0 } m := by
-  obtain ⟨c', id', hs', hm⟩ := h.acc k hk
+  obtain ⟨c', id', x, hs', hm, hx⟩ := h.wit k hk
   rw [hs] at hs'
   simp only [Option.some.injEq, Prod.mk.injEq] at hs'
   obtain ⟨rfl, rfl⟩ := hs'
   have hmem := mem_forId hm
   obtain ⟨m, hm'⟩ := joinAll_isSome (List.ne_nil_of_mem hmem)
-  exact ⟨m, hm', joinAll_le hmem hm'⟩
+  refine ⟨m, hm', NB.le_trans ?_ (joinAll_le hmem hm')⟩
+  rw [NB.le_iff]; simp only; omega
+
+/-- the witness invariant after key `k` (check block `c`, id `id`) gained the contribution `(id, x)` -/
+theorem wit_cons {PA PL : List Str} {g g' : Ghost} {k c id : Str} {x : NB}
+    (hw : ∀ k, (k ∈ g.accepted ∧ k ∉ PA) ∨ (k ∈ g.logged ∧ k ∉ PL) →
+      ∃ c id x, splitUpkeepKey k = some (c, id) ∧ (id, x) ∈ g.contribs ∧ x.check = num c)
+    (hs : splitUpkeepKey k = some (c, id)) (hx : x.check = num c)
+    (hc : g'.contribs = (id, x) :: g.contribs)
+    (ha : ∀ k', k' ∈ g'.accepted → k' = k ∨ k' ∈ g.accepted) (hl : ∀ k', k' ∈ g'.logged → k' = k ∨ k' ∈ g.logged) :
+    ∀ k', (k' ∈ g'.accepted ∧ k' ∉ PA) ∨ (k' ∈ g'.logged ∧ k' ∉ PL) →
+      ∃ c id x, splitUpkeepKey k' = some (c, id) ∧ (id, x) ∈ g'.contribs ∧ x.check = num c := by
+  intro k' hk'
+  by_cases e : k' = k
+  · subst e; exact ⟨c, id, x, hs, by rw [hc]; exact List.mem_cons_self, hx⟩
+  · have hold : (k' ∈ g.accepted ∧ k' ∉ PA) ∨ (k' ∈ g.logged ∧ k' ∉ PL) := by
+      rcases hk' with ⟨h1, h2⟩ | ⟨h1, h2⟩
+      · rcases ha k' h1 with h | h
+        · exact absurd h e
+        · exact Or.inl ⟨h, h2⟩
+      · rcases hl k' h1 with h | h
+        · exact absurd h e
+        · exact Or.inr ⟨h, h2⟩
+    obtain ⟨c', id', x', h1, h2, h3⟩ := hw k' hold
+    exact ⟨c', id', x', h1, by rw [hc]; exact List.mem_cons_of_mem _ h2, h3⟩
 
 theorem ghost_accept_none {cfg : Cfg} {g : Ghost} {k : Str} (hs : splitUpkeepKey k = none) :
     g.step cfg (.accept k) = g := by simp [Ghost.step, hs]
@@ -494,9 +527,11 @@ theorem accept_new {cfg : Cfg} {s : State} {t : Nat} {k c id : Str}
         idBlocks := updateIdBlock cfg s.idBlocks t id { check := c, transmit := indefinite } } := by
   simp [accept, hs, hg]
 
-theorem sim_accept (cfg : Cfg) {lim t : Nat} {s : State} {g : Ghost} (h : Sim lim s g) (k : Str)
-    (ht : t ≤ lim) (hw : lim ≤ t + cfg.window) (ha : lim ≤ t + activeTtlNs) (hc : opCanon (.accept k) = true) :
-    Sim lim (accept cfg s t k) (g.step cfg (.accept k)) := by
+theorem sim_accept (cfg : Cfg) {limI limA t : Nat} {PA PL : List Str} {s : State} {g : Ghost}
+    (h : Sim2 limI limA PA PL s g) (k : Str)
+    (ht : t ≤ limI) (hw : limI ≤ t + cfg.window) (hta : t ≤ limA) (ha : limA ≤ t + activeTtlNs)
+    (hc : opCanon (.accept k) = true) (hPA : k ∉ PA) :
+    Sim2 limI limA PA PL (accept cfg s t k) (g.step cfg (.accept k)) := by
   cases hs : splitUpkeepKey k with
   | none => rw [accept_none hs, ghost_accept_none hs]; exact h
   | some p =>
@@ -508,7 +543,7 @@ theorem sim_accept (cfg : Cfg) {lim t : Nat} {s : State} {g : Ghost} (h : Sim li
           | none => ({ check := num c, upto := 0 } : NB)
           | some a => a.join { check := num c, upto := 0 }) else g.block id' :=
       fun id' => block_of_contribs (g := g) rfl id'
-    have hget := get_of_fresh h.freshA ht k
+    have hget := get_of_fresh h.freshA hta k
     have hact := h.active k
     by_cases hk : k ∈ g.accepted
     · -- already active: no change; the ghost gains a duplicate contribution
@@ -518,7 +553,7 @@ theorem sim_accept (cfg : Cfg) {lim t : Nat} {s : State} {g : Ghost} (h : Sim li
       | some q =>
         rw [hf] at hget
         rw [accept_active hs hget]
-        obtain ⟨m, hm, hle⟩ := h.block_ge hk hs
+        obtain ⟨m, hm, hle⟩ := h.block_ge (Or.inl ⟨hk, hPA⟩) hs
         refine ⟨h.freshI, h.freshA, h.canon, ?_, ?_, ?_, fun k' hk' => List.mem_cons_of_mem _ (h.logAcc k' hk')⟩
         · intro id'
           rw [h.blocks, hblk]
@@ -530,12 +565,7 @@ theorem sim_accept (cfg : Cfg) {lim t : Nat} {s : State} {g : Ghost} (h : Sim li
           by_cases e : k' = k
           · subst e; simp [hk]
           · simp [e]
-        · intro k' hk'
-          simp only [List.mem_cons] at hk'
-          rcases hk' with rfl | hk'
-          · exact ⟨c, id, hs, List.mem_cons_self⟩
-          · obtain ⟨c', id', h1, h2⟩ := h.acc k' hk'
-            exact ⟨c', id', h1, List.mem_cons_of_mem _ h2⟩
+        · exact wit_cons (g := g) h.wit hs rfl rfl (fun k' hk' => by simpa using hk') (fun k' hk' => Or.inr hk')
     · rw [if_neg hk] at hact
       cases hf : s.activeKeys.find k with
       | some q => rw [hf] at hact; simp at hact
@@ -543,7 +573,7 @@ theorem sim_accept (cfg : Cfg) {lim t : Nat} {s : State} {g : Ghost} (h : Sim li
         rw [hf] at hget
         rw [accept_new hs hget]
         have hv : canonBlk { check := c, transmit := indefinite } := ⟨hcc, isCanon_indefinite⟩
-        obtain ⟨u1, u2, u3, u4⟩ := find_updateIdBlock cfg s.idBlocks lim t id _ h.freshI ht hw h.canon hv
+        obtain ⟨u1, u2, u3, u4⟩ := find_updateIdBlock cfg s.idBlocks limI t id _ h.freshI ht hw h.canon hv
         refine ⟨u1, fresh_set h.freshA activeTtl_pos ha _ _, u2, ?_, ?_, ?_, ?_⟩
         · intro id'
           rw [hblk]
@@ -563,12 +593,7 @@ theorem sim_accept (cfg : Cfg) {lim t : Nat} {s : State} {g : Ghost} (h : Sim li
             simp [this]
           · simp only [e, if_false, List.mem_cons, false_or]
             exact h.active k'
-        · intro k' hk'
-          simp only [List.mem_cons] at hk'
-          rcases hk' with rfl | hk'
-          · exact ⟨c, id, hs, List.mem_cons_self⟩
-          · obtain ⟨c', id', h1, h2⟩ := h.acc k' hk'
-            exact ⟨c', id', h1, List.mem_cons_of_mem _ h2⟩
+        · exact wit_cons (g := g) h.wit hs rfl rfl (fun k' hk' => by simpa using hk') (fun k' hk' => Or.inr hk')
         · intro k' hk'
           exact List.mem_cons_of_mem _ (h.logAcc k' hk')
 
@@ -576,11 +601,12 @@ theorem sim_accept (cfg : Cfg) {lim t : Nat} {s : State} {g : Ghost} (h : Sim li
 def Ghost.logged' (g : Ghost) (key id : Str) (x : NB) : Ghost :=
   if key ∈ g.accepted then { g with logged := key :: g.logged, contribs := (id, x) :: g.contribs } else g
 
-theorem sim_processLog (cfg : Cfg) {lim t : Nat} {s : State} {g : Ghost} (h : Sim lim s g) (key c id tb : Str)
+theorem sim_processLog (cfg : Cfg) {limI limA t : Nat} {PA PL : List Str} {s : State} {g : Ghost}
+    (h : Sim2 limI limA PA PL s g) (key c id tb : Str)
     (hs : splitUpkeepKey key = some (c, id)) (hcc : isCanon c = true) (htb : isCanon tb = true)
-    (ht : t ≤ lim) (hw : lim ≤ t + cfg.window) (ha : lim ≤ t + activeTtlNs) :
-    Sim lim (processLog cfg s t key c id tb) (g.logged' key id { check := num c, upto := rankOf (num tb) }) := by
-  have hget := get_of_fresh h.freshA ht key
+    (ht : t ≤ limI) (hw : limI ≤ t + cfg.window) (hta : t ≤ limA) (ha : limA ≤ t + activeTtlNs) (hPL : key ∉ PL) :
+    Sim2 limI limA PA PL (processLog cfg s t key c id tb) (g.logged' key id { check := num c, upto := rankOf (num tb) }) := by
+  have hget := get_of_fresh h.freshA hta key
   have hact := h.active key
   have hv : canonBlk { check := c, transmit := tb } := ⟨hcc, htb⟩
   have hov : ofBlk { check := c, transmit := tb } = { check := num c, upto := rankOf (num tb) } := rfl
@@ -593,11 +619,9 @@ theorem sim_processLog (cfg : Cfg) {lim t : Nat} {s : State} {g : Ghost} (h : Si
           | none => ({ check := num c, upto := rankOf (num tb) } : NB)
           | some a => a.join { check := num c, upto := rankOf (num tb) }) else g.block id' :=
       fun id' => block_of_contribs (g := g) rfl id'
-    have hacc : ∀ k' ∈ g.accepted, ∃ c' id', splitUpkeepKey k' = some (c', id') ∧
-        (id', ({ check := num c', upto := 0 } : NB)) ∈ (id, ({ check := num c, upto := rankOf (num tb) } : NB)) :: g.contribs := by
-      intro k' hk'
-      obtain ⟨c', id', h1, h2⟩ := h.acc k' hk'
-      exact ⟨c', id', h1, List.mem_cons_of_mem _ h2⟩
+    have hacc := wit_cons (g := g)
+      (g' := { g with logged := key :: g.logged, contribs := (id, ({ check := num c, upto := rankOf (num tb) } : NB)) :: g.contribs })
+      h.wit hs rfl rfl (fun k' hk' => Or.inr hk') (fun k' hk' => by simpa using hk')
     cases hf : s.activeKeys.find key with
     | none => rw [hf] at hact; simp at hact
     | some q =>
@@ -614,7 +638,7 @@ theorem sim_processLog (cfg : Cfg) {lim t : Nat} {s : State} {g : Ghost} (h : Si
               idBlocks := updateIdBlock cfg s.idBlocks t id { check := c, transmit := tb } } := by
           simp [processLog, hget]
         rw [this]
-        obtain ⟨u1, u2, u3, u4⟩ := find_updateIdBlock cfg s.idBlocks lim t id _ h.freshI ht hw h.canon hv
+        obtain ⟨u1, u2, u3, u4⟩ := find_updateIdBlock cfg s.idBlocks limI t id _ h.freshI ht hw h.canon hv
         refine ⟨u1, fresh_set h.freshA activeTtl_pos ha _ _, u2, ?_, ?_, hacc, ?_⟩
         · intro id'
           rw [hblk]
@@ -643,7 +667,7 @@ theorem sim_processLog (cfg : Cfg) {lim t : Nat} {s : State} {g : Ghost} (h : Si
           by_cases x : key ∈ g.logged
           · exact x
           · simp [x] at hact
-        obtain ⟨m, hm, hle⟩ := h.block_ge hk hs
+        obtain ⟨m, hm, hle⟩ := h.block_ge (Or.inr ⟨hl, hPL⟩) hs
         have hfi := h.blocks id
         rw [hm] at hfi
         cases hfid : s.idBlocks.find id with
@@ -673,7 +697,7 @@ theorem sim_processLog (cfg : Cfg) {lim t : Nat} {s : State} {g : Ghost} (h : Si
                 { s with idBlocks := updateIdBlock cfg s.idBlocks t id { check := c, transmit := tb } } := by
               simp [processLog, hget, hgetI, hguard]
             rw [this]
-            obtain ⟨u1, u2, u3, u4⟩ := find_updateIdBlock cfg s.idBlocks lim t id _ h.freshI ht hw h.canon hv
+            obtain ⟨u1, u2, u3, u4⟩ := find_updateIdBlock cfg s.idBlocks limI t id _ h.freshI ht hw h.canon hv
             refine ⟨u1, h.freshA, u2, ?_, hactive, hacc, hlog⟩
             intro id'
             rw [hblk]
@@ -727,10 +751,12 @@ theorem addLog_eq_logged' (cfg : Cfg) (g : Ghost) (op : Op) {k id : Str} {x : NB
 theorem addLog_none (cfg : Cfg) (g : Ghost) (op : Op) (h : logContrib cfg op = none) : g.addLog cfg op = g := by
   simp [Ghost.addLog, h]
 
-theorem sim_perform (cfg : Cfg) {lim t : Nat} {s : State} {g : Ghost} (h : Sim lim s g) (l : Log)
-    (ht : t ≤ lim) (hw : lim ≤ t + cfg.window) (ha : lim ≤ t + activeTtlNs) (hc : opCanon (.perform l) = true) :
-    Sim lim (performLog cfg s t l) (g.step cfg (.perform l)) := by
-  show Sim lim (performLog cfg s t l) (g.addLog cfg (.perform l))
+theorem sim_perform (cfg : Cfg) {limI limA t : Nat} {PA PL : List Str} {s : State} {g : Ghost}
+    (h : Sim2 limI limA PA PL s g) (l : Log)
+    (ht : t ≤ limI) (hw : limI ≤ t + cfg.window) (hta : t ≤ limA) (ha : limA ≤ t + activeTtlNs)
+    (hc : opCanon (.perform l) = true) (hPL : l.key ∉ PL) :
+    Sim2 limI limA PA PL (performLog cfg s t l) (g.step cfg (.perform l)) := by
+  show Sim2 limI limA PA PL (performLog cfg s t l) (g.addLog cfg (.perform l))
   unfold performLog
   by_cases hconf : l.confs < cfg.minConfs
   · rw [if_pos hconf, addLog_none]
@@ -746,13 +772,15 @@ theorem sim_perform (cfg : Cfg) {lim t : Nat} {s : State} {g : Ghost} (h : Sim l
       obtain ⟨c, id⟩ := p
       have hcan : isCanon c = true ∧ isCanon l.transmit = true := by simpa [opCanon, hs] using hc
       rw [addLog_eq_logged' (k := l.key) (id := id) (x := { check := num c, upto := rankOf (num l.transmit) })]
-      · exact sim_processLog cfg h l.key c id l.transmit hs hcan.1 hcan.2 ht hw ha
+      · exact sim_processLog cfg h l.key c id l.transmit hs hcan.1 hcan.2 ht hw hta ha hPL
       · simp [logContrib, hconf, hs]
 
-theorem sim_stale (cfg : Cfg) {lim t : Nat} {s : State} {g : Ghost} (h : Sim lim s g) (l : Log)
-    (ht : t ≤ lim) (hw : lim ≤ t + cfg.window) (ha : lim ≤ t + activeTtlNs) (hc : opCanon (.stale l) = true) :
-    Sim lim (staleLog cfg s t l) (g.step cfg (.stale l)) := by
-  show Sim lim (staleLog cfg s t l) (g.addLog cfg (.stale l))
+theorem sim_stale (cfg : Cfg) {limI limA t : Nat} {PA PL : List Str} {s : State} {g : Ghost}
+    (h : Sim2 limI limA PA PL s g) (l : Log)
+    (ht : t ≤ limI) (hw : limI ≤ t + cfg.window) (hta : t ≤ limA) (ha : limA ≤ t + activeTtlNs)
+    (hc : opCanon (.stale l) = true) (hPL : l.key ∉ PL) :
+    Sim2 limI limA PA PL (staleLog cfg s t l) (g.step cfg (.stale l)) := by
+  show Sim2 limI limA PA PL (staleLog cfg s t l) (g.addLog cfg (.stale l))
   unfold staleLog
   by_cases hconf : l.confs < cfg.minConfs
   · rw [if_pos hconf, addLog_none]
@@ -769,29 +797,49 @@ theorem sim_stale (cfg : Cfg) {lim t : Nat} {s : State} {g : Ghost} (h : Sim lim
       have hcan : isCanon c = true := by simpa [opCanon, hs] using hc
       simp only [increment_canon hcan]
       rw [addLog_eq_logged' (k := l.key) (id := id) (x := { check := num c, upto := rankOf (num c + 1) })]
-      · have := sim_processLog cfg h l.key c id (renderNat (num c + 1)) hs hcan (isCanon_renderNat _) ht hw ha
+      · have := sim_processLog cfg h l.key c id (renderNat (num c + 1)) hs hcan (isCanon_renderNat _) ht hw hta ha hPL
         rw [num_renderNat] at this
         exact this
       · simp [logContrib, hconf, hs, canon_parse hcan]
 
-theorem sim_step (cfg : Cfg) {lim t : Nat} {s : State} {g : Ghost} (h : Sim lim s g) (op : Op)
-    (ht : t ≤ lim) (hw : lim ≤ t + cfg.window) (ha : lim ≤ t + activeTtlNs) (hc : opCanon op = true) :
-    Sim lim (step cfg s t op) (g.step cfg op) := by
-  cases op with
-  | accept k => exact sim_accept cfg h k ht hw ha hc
-  | perform l => exact sim_perform cfg h l ht hw ha hc
-  | stale l => exact sim_stale cfg h l ht hw ha hc
+/-- `op` does not touch a key of an earlier window: no re-accept of a key accepted then, no log of a key logged then -/
+def opFree (PA PL : List Str) : Op → Prop
+  | .accept k => k ∉ PA
+  | .perform l => l.key ∉ PL
+  | .stale l => l.key ∉ PL
 
-theorem sim_run (cfg : Cfg) (lim : Nat) (h : List (Nat × Op)) (s : State) (g : Ghost) (hs : Sim lim s g)
-    (hh : ∀ p ∈ h, opCanon p.2 = true ∧ p.1 ≤ lim ∧ lim ≤ p.1 + cfg.window ∧ lim ≤ p.1 + activeTtlNs) :
-    Sim lim (run cfg s h) (ghostFrom cfg g (h.map (·.2))) := by
+theorem sim_step (cfg : Cfg) {limI limA t : Nat} {PA PL : List Str} {s : State} {g : Ghost}
+    (h : Sim2 limI limA PA PL s g) (op : Op)
+    (ht : t ≤ limI) (hw : limI ≤ t + cfg.window) (hta : t ≤ limA) (ha : limA ≤ t + activeTtlNs)
+    (hc : opCanon op = true) (hf : opFree PA PL op) :
+    Sim2 limI limA PA PL (step cfg s t op) (g.step cfg op) := by
+  cases op with
+  | accept k => exact sim_accept cfg h k ht hw hta ha hc hf
+  | perform l => exact sim_perform cfg h l ht hw hta ha hc hf
+  | stale l => exact sim_stale cfg h l ht hw hta ha hc hf
+
+theorem sim_run2 (cfg : Cfg) (limI limA : Nat) (PA PL : List Str) (h : List (Nat × Op)) (s : State) (g : Ghost)
+    (hs : Sim2 limI limA PA PL s g)
+    (hh : ∀ p ∈ h, opCanon p.2 = true ∧ p.1 ≤ limI ∧ limI ≤ p.1 + cfg.window ∧ p.1 ≤ limA ∧ limA ≤ p.1 + activeTtlNs ∧
+      opFree PA PL p.2) :
+    Sim2 limI limA PA PL (run cfg s h) (ghostFrom cfg g (h.map (·.2))) := by
   induction h generalizing s g with
   | nil => exact hs
   | cons p h ih =>
     obtain ⟨t, op⟩ := p
-    obtain ⟨h1, h2, h3, h4⟩ := hh (t, op) (by simp)
+    obtain ⟨h1, h2, h3, h4, h5, h6⟩ := hh (t, op) (by simp)
     simp only [run, List.map_cons, ghostFrom]
-    exact ih _ _ (sim_step cfg hs op h2 h3 h4 h1) (fun p hp => hh p (List.mem_cons_of_mem _ hp))
+    exact ih _ _ (sim_step cfg hs op h2 h3 h4 h5 h1 h6) (fun p hp => hh p (List.mem_cons_of_mem _ hp))
+
+theorem opFree_nil (op : Op) : opFree [] [] op := by cases op <;> simp [opFree]
+
+theorem sim_run (cfg : Cfg) (lim : Nat) (h : List (Nat × Op)) (s : State) (g : Ghost) (hs : Sim lim s g)
+    (hh : ∀ p ∈ h, opCanon p.2 = true ∧ p.1 ≤ lim ∧ lim ≤ p.1 + cfg.window ∧ lim ≤ p.1 + activeTtlNs) :
+    Sim lim (run cfg s h) (ghostFrom cfg g (h.map (·.2))) := by
+  apply sim_run2 cfg lim lim [] [] h s g hs
+  intro p hp
+  obtain ⟨a, b, c, d⟩ := hh p hp
+  exact ⟨a, b, c, b, d, opFree_nil _⟩
 
 /-- the window hypothesis in the form `sim_run` wants -/
 theorem inWindow_spec {cfg : Cfg} {t0 now : Nat} {h : List (Nat × Op)} (hw : inWindow cfg t0 h now = true) :
@@ -1264,7 +1312,7 @@ theorem pendingN_ofBlk {bl : IdBlocker} (blk : Nat) :
     have : ¬ (num bl.transmit + 1 = 0) := by omega
     simp only [this, if_false]; rw [Bool.eq_iff_iff]; simp only [decide_eq_true_eq, Bool.not_eq_true', decide_eq_false_iff_not]; omega
 
-theorem isPending_of_sim {lim now : Nat} {s : State} {g : Ghost} (h : Sim lim s g) (hn : now ≤ lim) (key : Str)
+theorem isPending_of_sim {lim limA now : Nat} {PA PL : List Str} {s : State} {g : Ghost} (h : Sim2 lim limA PA PL s g) (hn : now ≤ lim) (key : Str)
     (hc : probeCanon key = true) : isPending s now key = expPending g key := by
   unfold isPending expPending
   cases hs : splitUpkeepKey key with
@@ -1281,7 +1329,7 @@ theorem isPending_of_sim {lim now : Nat} {s : State} {g : Ghost} (h : Sim lim s 
       have hbl := h.canon id bl e hf
       simp only [Option.map_some, after_canon hb hbl.2, pendingN_ofBlk]
 
-theorem isConfirmed_of_sim {lim now : Nat} {s : State} {g : Ghost} (h : Sim lim s g) (hn : now ≤ lim) (key : Str) :
+theorem isConfirmed_of_sim {limI lim now : Nat} {PA PL : List Str} {s : State} {g : Ghost} (h : Sim2 limI lim PA PL s g) (hn : now ≤ lim) (key : Str) :
     isConfirmed s now key = expConfirmed g key := by
   unfold isConfirmed expConfirmed
   rw [get_of_fresh h.freshA hn, h.active key]
@@ -1446,5 +1494,130 @@ theorem finalPoint_getLast (cfg : Cfg) (probes ckeys : List Str) (r : Run) {now 
       subst h
       simp [hn]
     · simp at h
+
+/-! ### a second window: everything written before a pause longer than the lockout is invisible afterwards -/
+
+theorem run_app (cfg : Cfg) (s : State) (h1 h2 : List (Nat × Op)) :
+    run cfg s (h1 ++ h2) = run cfg (run cfg s h1) h2 := by
+  induction h1 generalizing s with
+  | nil => rfl
+  | cons p h1 ih => obtain ⟨t, op⟩ := p; simp only [List.cons_append, run, ih]
+
+/-- same active keys, and every `Get` on the id blocks at or after `t0` answers alike -/
+def GetEq (t0 : Nat) (s s' : State) : Prop :=
+  s.activeKeys = s'.activeKeys ∧ ∀ k now, t0 ≤ now → s.idBlocks.get now k = s'.idBlocks.get now k
+
+theorem get_set {α} (c : Cache α) (t ttl : Nat) (k : Str) (v : α) (now : Nat) (k' : Str) :
+    (c.set t ttl k v).get now k' =
+      if k' = k then (if (if ttl > 0 then t + ttl else 0) > 0 ∧ now > (if ttl > 0 then t + ttl else 0) then none else some v)
+      else c.get now k' := by
+  unfold Cache.get
+  rw [find_set]
+  by_cases h : k' = k <;> simp [h]
+
+theorem getEq_updateIdBlock (cfg : Cfg) {c c' : Cache IdBlocker} {t0 t : Nat}
+    (h : ∀ k now, t0 ≤ now → c.get now k = c'.get now k) (ht : t0 ≤ t) (id : Str) (val : IdBlocker) :
+    ∀ k now, t0 ≤ now → (updateIdBlock cfg c t id val).get now k = (updateIdBlock cfg c' t id val).get now k := by
+  intro k now hn
+  have hid := h id t ht
+  cases hg : c'.get t id with
+  | none =>
+    rw [hg] at hid
+    simp only [updateIdBlock, hid, hg, get_set, h k now hn]
+  | some b =>
+    rw [hg] at hid
+    cases hsu : shouldUpdate b val with
+    | none => simp only [updateIdBlock, hid, hg, hsu, h k now hn]
+    | some su =>
+      cases su with
+      | false => simp only [updateIdBlock, hid, hg, hsu, h k now hn]
+      | true => simp only [updateIdBlock, hid, hg, hsu, get_set, h k now hn]
+
+theorem getEq_processLog (cfg : Cfg) {s s' : State} {t0 t : Nat} (h : GetEq t0 s s') (ht : t0 ≤ t) (key c id tb : Str) :
+    GetEq t0 (processLog cfg s t key c id tb) (processLog cfg s' t key c id tb) := by
+  obtain ⟨hA, hI⟩ := h
+  have hid := hI id t ht
+  cases hk : s'.activeKeys.get t key with
+  | none =>
+    have hk' : s.activeKeys.get t key = none := by rw [hA]; exact hk
+    simp only [processLog, hk, hk']; exact ⟨hA, hI⟩
+  | some cf =>
+    have hk' : s.activeKeys.get t key = some cf := by rw [hA]; exact hk
+    cases cf with
+    | false =>
+      simp only [processLog, hk, hk']
+      exact ⟨by rw [hA], getEq_updateIdBlock cfg hI ht id _⟩
+    | true =>
+      cases hg : s'.idBlocks.get t id with
+      | none =>
+        rw [hg] at hid
+        simp only [processLog, hk, hk', hg, hid]; exact ⟨hA, hI⟩
+      | some b =>
+        rw [hg] at hid
+        by_cases hgd : b.check = c ∧ b.transmit ≠ tb
+        · simp only [processLog, hk, hk', hg, hid, hgd, ne_eq, not_false_eq_true, and_self, if_true]
+          exact ⟨hA, getEq_updateIdBlock cfg hI ht id _⟩
+        · simp only [processLog, hk, hk', hg, hid, hgd, if_false]
+          exact ⟨hA, hI⟩
+
+theorem getEq_step (cfg : Cfg) {s s' : State} {t0 t : Nat} (h : GetEq t0 s s') (ht : t0 ≤ t) (op : Op) :
+    GetEq t0 (step cfg s t op) (step cfg s' t op) := by
+  have hA := h.1
+  have hI := h.2
+  cases op with
+  | accept k =>
+    cases hs : splitUpkeepKey k with
+    | none => simp only [step, accept, hs]; exact h
+    | some p =>
+      obtain ⟨bk, id⟩ := p
+      cases hk : s'.activeKeys.get t k with
+      | some v =>
+        have hk' : s.activeKeys.get t k = some v := by rw [hA]; exact hk
+        simp only [step, accept, hs, hk, hk']; exact h
+      | none =>
+        have hk' : s.activeKeys.get t k = none := by rw [hA]; exact hk
+        simp only [step, accept, hs, hk, hk']
+        exact ⟨by rw [hA], getEq_updateIdBlock cfg hI ht id _⟩
+  | perform l =>
+    by_cases hc : l.confs < cfg.minConfs
+    · simp only [step, performLog, hc, if_true]; exact h
+    · cases hs : splitUpkeepKey l.key with
+      | none => simp only [step, performLog, hc, if_false, hs]; exact h
+      | some p =>
+        obtain ⟨lc, id⟩ := p
+        simp only [step, performLog, hc, if_false, hs]
+        exact getEq_processLog cfg h ht _ _ _ _
+  | stale l =>
+    by_cases hc : l.confs < cfg.minConfs
+    · simp only [step, staleLog, hc, if_true]; exact h
+    · cases hs : splitUpkeepKey l.key with
+      | none => simp only [step, staleLog, hc, if_false, hs]; exact h
+      | some p =>
+        obtain ⟨lc, id⟩ := p
+        cases hi : increment lc with
+        | none => simp only [step, staleLog, hc, if_false, hs, hi]; exact h
+        | some nk =>
+          simp only [step, staleLog, hc, if_false, hs, hi]
+          exact getEq_processLog cfg h ht _ _ _ _
+
+theorem getEq_run (cfg : Cfg) (t0 : Nat) (h : List (Nat × Op)) (s s' : State) (hs : GetEq t0 s s')
+    (hh : ∀ p ∈ h, t0 ≤ p.1) : GetEq t0 (run cfg s h) (run cfg s' h) := by
+  induction h generalizing s s' with
+  | nil => exact hs
+  | cons p h ih =>
+    obtain ⟨t, op⟩ := p
+    simp only [run]
+    exact ih _ _ (getEq_step cfg hs (hh (t, op) (by simp)) op) (fun p hp => hh p (List.mem_cons_of_mem _ hp))
+
+theorem isPending_getEq {t0 now : Nat} {s s' : State} (h : GetEq t0 s s') (hn : t0 ≤ now) (key : Str) :
+    isPending s now key = isPending s' now key := by
+  unfold isPending
+  cases splitUpkeepKey key with
+  | none => rfl
+  | some p => obtain ⟨b, id⟩ := p; simp only [h.2 id now hn]
+
+theorem isConfirmed_getEq {t0 now : Nat} {s s' : State} (h : GetEq t0 s s') (key : Str) :
+    isConfirmed s now key = isConfirmed s' now key := by
+  unfold isConfirmed; rw [h.1]
 
 end AutoVerif.C17
